@@ -169,6 +169,20 @@ func (r *Run) loadKnown() {
 		fmt.Printf("INCONCLUSIVE property=%s reason=known_findings.json:%v\n", r.Prop, err)
 		os.Exit(ExitInconclusive)
 	}
+	// per-property fragments (merged into known_findings.json when integrated)
+	frags, _ := filepath.Glob(filepath.Join(VerifRoot, "known_findings.d", "*.json"))
+	for _, f := range frags {
+		fb, err := ioutil.ReadFile(f)
+		if err != nil {
+			continue
+		}
+		var part []knownFinding
+		if err := json.Unmarshal(fb, &part); err != nil {
+			fmt.Printf("INCONCLUSIVE property=%s reason=%s:%v\n", r.Prop, f, err)
+			os.Exit(ExitInconclusive)
+		}
+		all = append(all, part...)
+	}
 	for _, k := range all {
 		if k.Property == r.Prop && k.Status == "known" {
 			r.known = append(r.known, k)
@@ -492,8 +506,12 @@ func (r *Run) Finish(minNontrivial int) {
 	}
 	if r.Replay == "" {
 		b, _ := json.MarshalIndent(ev, "", " ")
-		_ = os.MkdirAll(filepath.Join(VerifRoot, "evidence"), 0755)
-		_ = ioutil.WriteFile(filepath.Join(VerifRoot, "evidence", r.Prop+".json"), b, 0644)
+		evdir := os.Getenv("VERIF_EVIDENCE_DIR")
+		if evdir == "" {
+			evdir = filepath.Join(VerifRoot, "evidence")
+		}
+		_ = os.MkdirAll(evdir, 0755)
+		_ = ioutil.WriteFile(filepath.Join(evdir, r.Prop+".json"), b, 0644)
 	}
 	code := ExitHeld
 	switch {
